@@ -18,6 +18,9 @@ def run_entry(e):
         c = ConcreteCtx(e['values'], e.get('choices') or [])
         Ctx.cur = c
         args = h.setup(c)
+        if e.get('apply_known'):
+            from harness.core import make_known_builder
+            c.known = make_known_builder(e['apply_known'])(e['job'], c)
         if not c.ok:
             return {'ok': False, 'error': c.why, 'findings': []}
         c.start_path()
